@@ -17,7 +17,12 @@ type API interface {
 	Name() string
 	DecodePatch(b []byte) (any, error)
 	// Apply runs the Apply variant fn of the given patch.
-	Apply(p any, fn int, doc []byte, o Opts, indent string) ([]byte, error)
+	// opts is what NewOptions returned (nil: build a fresh one from o).
+	Apply(p any, fn int, doc []byte, o Opts, opts any, indent string) ([]byte, error)
+	// NewOptions builds the options object of the package (nil if it has none).
+	NewOptions(o Opts) any
+	// OptionsSnapshot renders every field of an options object, unexported ones included.
+	OptionsSnapshot(opts any) string
 	MergePatch(a, b []byte) ([]byte, error)
 	MergeMergePatches(a, b []byte) ([]byte, error)
 	CreateMergePatch(a, b []byte) ([]byte, error)
@@ -50,9 +55,23 @@ func (v5API) DecodePatch(b []byte) (any, error) {
 	return p, err
 }
 
-func (v5API) Apply(p any, fn int, doc []byte, o Opts, indent string) ([]byte, error) {
+func (v5API) NewOptions(o Opts) any {
+	return &v5.ApplyOptions{SupportNegativeIndices: o.Neg, AccumulatedCopySizeLimit: o.Limit, AllowMissingPathOnRemove: o.Allow, EnsurePathExistsOnAdd: o.Ensure, EscapeHTML: o.Escape}
+}
+
+func (v5API) OptionsSnapshot(opts any) string {
+	if o, ok := opts.(*v5.ApplyOptions); ok && o != nil {
+		return fmt.Sprintf("%+v", *o)
+	}
+	return ""
+}
+
+func (a v5API) Apply(p any, fn int, doc []byte, o Opts, shared any, indent string) ([]byte, error) {
 	pp := p.(v5.Patch)
-	opts := &v5.ApplyOptions{SupportNegativeIndices: o.Neg, AccumulatedCopySizeLimit: o.Limit, AllowMissingPathOnRemove: o.Allow, EnsurePathExistsOnAdd: o.Ensure, EscapeHTML: o.Escape}
+	opts, _ := shared.(*v5.ApplyOptions)
+	if opts == nil {
+		opts = a.NewOptions(o).(*v5.ApplyOptions)
+	}
 	switch fn {
 	case FnApply:
 		return pp.Apply(doc)
@@ -181,7 +200,10 @@ func (legacyAPI) DecodePatch(b []byte) (any, error) {
 	return p, err
 }
 
-func (legacyAPI) Apply(p any, fn int, doc []byte, o Opts, indent string) ([]byte, error) {
+func (legacyAPI) NewOptions(o Opts) any         { return nil }
+func (legacyAPI) OptionsSnapshot(opts any) string { return "" }
+
+func (legacyAPI) Apply(p any, fn int, doc []byte, o Opts, shared any, indent string) ([]byte, error) {
 	pp := p.(legacy.Patch)
 	if fn == FnApplyIndent {
 		return pp.ApplyIndent(doc, indent)
